@@ -22,6 +22,7 @@ def failing_subsets(tier):
         # (label, files, extra args, holder, expected exit, names that must stay untouched, names that must change)
         ("holder contains the terminator of one file's style", {"ok1.py": body, "bad.html": body, "ok2.py": body}, [], "Jane --> Doe", 1, ["bad.html"], ["ok1.py", "ok2.py"]),
         ("holder contains the terminator, two failing files", {"bad1.html": body, "ok.py": body, "bad2.xml": body}, [], "Jane --> Doe", 1, ["bad1.html", "bad2.xml"], ["ok.py"]),
+        ("holder that the reader cannot return (ends in a comment terminator)", {"main.js": body, "util.py": body}, [], "Example Corp */", 1, ["main.js", "util.py"], []),
         ("information-dropping template", {"a.py": body, "b.c": body, **TEMPLATES}, ["--template", "nolicence"], "Jane", 1, ["a.py", "b.c"], []),
         ("unsupported --single-line for one file", {"a.py": body, "page.css": body, "b.py": body}, ["--single-line"], "Jane", 2, ["a.py", "page.css", "b.py"], []),
         ("unsupported --multi-line for one file", {"a.c": body, "script.py": body, "b.c": body}, ["--multi-line"], "Jane", 2, ["a.c", "script.py", "b.c"], []),
